@@ -246,8 +246,8 @@ def raw_repr(s):
     """Complete raw representation of both stored views + freshness; only ever used as a
     deduplication key (strictly finer than behaviour can depend on)."""
     def raw(msgs):
-        return tuple((m.message_type.value, m.time, m.channel, m.note, m.velocity, m.numerator, m.denominator,
-                      m.key.value if m.key is not None else None, m.program, m.control) for m in msgs)
+        return tuple((m.message_type.value, m.time, type(m.time).__name__, m.channel, m.note, m.velocity, m.numerator,
+                      m.denominator, m.key.value if m.key is not None else None, m.program, m.control) for m in msgs)
     a = None if s._abs_stale else raw(s._abs._messages)
     r = None if s._rel_stale else raw(s._rel._messages)
     return (s._abs_stale, s._rel_stale, a, r)
